@@ -14,11 +14,10 @@ Fixpoint print_val (v : pval) : list token :=
   | PVFloat l => [TFloat l]
   | PVStr s => [TStr s]
   | PVArr l =>
-      P "[" :: (fix go (l : list pval) : list token :=
-                  match l with
-                  | [] => []
-                  | x :: l' => match l' with [] => print_val x | _ => print_val x ++ P "," :: go l' end
-                  end) l ++ [P "]"]
+      P "[" :: match l with
+               | [] => []
+               | x :: l' => print_val x ++ flat_map (fun y => P "," :: print_val y) l'
+               end ++ [P "]"]
   end.
 
 Definition uname (c : string) (n : nat) : string := (c ++ dec_str n)%string.
